@@ -95,7 +95,9 @@ ALL_SPECS = ["brine_spec", "channel_spec", "policy_spec", "refcount_spec", "prot
 PLANS["C06"] = dict(
     title="Attribute access by the peer follows the connection's policy, and only its own",
     contracts=ALL_CONTRACTS, specs=ALL_SPECS, table="module",
-    targets=ATTR_FUNCS + SERVICE_HOOKS + [PROTO + "__init__"], lemmas=[], compositions=[],
+    targets=ATTR_FUNCS + SERVICE_HOOKS + [PROTO + "__init__"] +
+            ["rpyc/utils/helpers.py::" + n for n in ("restricted", "restricted.<locals>.Restricted._rpyc_getattr",
+                                                     "restricted.<locals>.Restricted._rpyc_setattr")], lemmas=[], compositions=[],
     native_focus=[(PROTO + "_check_attr", "default")],
     design_ref="DESIGN.md section 4, C06",
     assumptions=COMMON_ASSUMPTIONS + [
@@ -109,6 +111,10 @@ PLANS["C06"] = dict(
         "choose); every other case is pinned by the statement",
         "`and only its own`: Connection.__init__ is verified to give each connection its own newly created copy of the "
         "configuration (the caller's entries over the defaults) - one connection's policy cannot be another's",
+        "restricted views: helpers.restricted and its two hooks (closures of a class statement inside the function) are verified - the "
+        "read hook answers exactly for names in `attrs` (one getattr on the wrapped object, AttributeError and no effect otherwise), "
+        "the write hook exactly for names in `wattrs`, which is `attrs` only when wattrs is None; membership in a dynamic name list is "
+        "the pure predicate val_contains(list, name) (a user-defined __contains__ with effects is outside the model)",
     ],
 )
 
@@ -244,7 +250,10 @@ PLANS["C03"] = dict(
         "T-WEAKREF (ASSUMED): the proxy cache is modelled as a map id pack -> live proxy (WeakValueDict lookups are interface "
         "contracts); entries do not vanish in the middle of one _unbox",
         "ASSUMED interface contract: Connection._netref_factory (class synthesis; a new proxy object with count 1 for this "
-        "connection and id pack)",
+        "connection and id pack). Its assumed frame (transport buffers, reference counts) is SMALLER than what the real function "
+        "can touch: for the first proxy of a class it sends a nested HANDLE_INSPECT request, and while that waits the connection "
+        "serves whatever else arrives (any handler may run), and it records the generated class in _netref_classes_cache - this "
+        "re-entrancy inside _unbox is not modelled",
         "get_id_pack: assumed_deterministic (the same object yields the same id pack while it lives)",
         "obtain / deliver: only the pickling switch (_handle_pickle refuses before pickling unless allow_pickle) and the proxy's "
         "__reduce_ex__ forwarding are under contract; that pickle.loads(pickle.dumps(x)) is an equal independent copy is the "
@@ -271,7 +280,8 @@ PLANS["C10"]["assumptions"] = COMMON_ASSUMPTIONS + [
     "T-WEAKREF (ASSUMED): the proxy cache is a map id pack -> live proxy; the window between a proxy's death and its cache "
     "entry vanishing is not modelled",
     "single-threaded transitions (the table's lock is modelled sequentially)",
-    "ASSUMED interface contract: Connection._netref_factory",
+    "ASSUMED interface contract: Connection._netref_factory (a new proxy for this connection and id pack; the nested INSPECT request "
+    "it may send, and what is served re-entrantly while it waits, are not modelled)",
 ]
 
 
